@@ -179,7 +179,7 @@ static std::string build_http(FuzzedDataProvider &fdp, std::string const &tag) {
             case 3: out += "X-C: v\r\n folded\r\n"; break;
             case 4: out += fdp.ConsumeRandomLengthString(40) + "\r\n"; break;
             case 5: out += "Cookie: " + fdp.ConsumeRandomLengthString(40) + "\r\n"; break;
-            case 6: out += "X-Long: " + std::string((size_t)fdp.ConsumeIntegralInRange<int>(0, 20000), 'h') + "\r\n"; break;
+            case 6: out += "X-Long: " + std::string((size_t)fdp.ConsumeIntegralInRange<int>(0, 40000), 'h') + "\r\n"; break;
             default: out += "Accept-Encoding: gzip\r\n"; break;
             }
         }
@@ -294,6 +294,12 @@ extern "C" int LLVMFuzzerTestOneInput(const uint8_t *data, size_t size) {
     // upper bound on the number of requests these bytes can contain
     size_t bound = g_fe == 'h' ? count_sub(payload, "\r\n\r\n") : g_fe == 's' ? 1 : count_sub(payload, std::string("\x01\x01", 2));
     size_t ledger_before = vs::Ledger::get().snapshot().size();
+    // embedded HTTP: the header section is capped at 16 KiB, tested whenever the parser runs dry; one read takes at most 16 KiB,
+    // so a connection whose first 32 KiB hold no end-of-headers can never be accepted ("oversized ... answered with an error
+    // status or closed"): none of its bytes may reach the application
+    bool oversize_header = false;
+    if (g_fe == 'h') { size_t eoh = payload.find("\r\n\r\n"); oversize_header = payload.size() >= 32768 && (eoh == std::string::npos || eoh >= 32768); }
+    if (oversize_header) VR.cls("malformed.http_header_over_32k");
 
     std::string why;
     {
@@ -346,6 +352,7 @@ extern "C" int LLVMFuzzerTestOneInput(const uint8_t *data, size_t size) {
             if (e.what.compare(0, 7, "filter.") == 0) per_filter[e.tag.substr(0, e.tag.find('|'))].push_back(e.what);
         }
         VF_CHECK(handlers_this <= bound, "handler-called-more-often-than-requests", std::to_string(handlers_this) + " handler calls tagged " + tag + " but the bytes hold at most " + std::to_string(bound) + " requests");
+        VF_CHECK(!(oversize_header && handlers_this), "http:oversized-header-reaches-handler", "no end of headers within 32 KiB, yet the handler ran " + std::to_string(handlers_this) + " time(s)");
         if (handlers_this) { VR.cls("malformed.reached_handler"); VR.nontrivial(vr::fnv(payload)); }
         for (auto &kv : per_filter) {
             int errs = 0; bool ended = false;
